@@ -474,7 +474,9 @@ impl<'a> World<'a> {
                     "name": self.names.roles[r.name], "keyids": self.keys(&r.ids).iter().map(|k| k.id.clone()).collect::<Vec<_>>(),
                     "threshold": r.thr, (if r.hash_prefixes.is_empty() { "paths" } else { "path_hash_prefixes" }):
                         (if r.hash_prefixes.is_empty() { r.patterns.clone() } else { r.hash_prefixes.clone() }),
-                    "terminating": false})).collect::<Vec<_>>()})
+                    // (the client does not evaluate the flag; rich repositories set it on every other role so that
+                    // nothing in the editor depends on it being false)
+                    "terminating": self.rich && r.name % 2 == 1})).collect::<Vec<_>>()})
         });
         let mut v = meta::targets_json(t.version, &self.t(t.expires), tg, deleg);
         v["x-msg"] = json!(t.msg);
